@@ -300,7 +300,7 @@ c10_ws!(c10_ws_line3, [b'/', b'/'], 2, [1, 1, 1], 3, 5, WS_A, 5, true, 7, false)
 c10_ws!(c10_ws_mb, [], 0, [1, 1, 3, 1], 4, 6, WS_A, 5, false, 8, false);
 c10_ws!(c10_ws_block4, [b'/', b'*'], 2, [1, 1, 1, 1], 4, 6, WS_A, 5, true, 8, false);
 c10_ws!(c10_ws_f5, [], 0, [1, 1, 1, 1, 1], 5, 5, WS_A, 5, false, 7, false);
-c10_ws!(c10_ws_witness, [b'/', b'*'], 2, [1, 1], 2, 4, WS_A, 5, true, 6, true);
+c10_ws!(c10_ws_witness, [], 0, [1, 1], 2, 2, WS_A2, 7, false, 4, true);
 
 c12_scan!(c12_string_q3, parse_string_off, [b'\''], 1, [1, 1, 1], 3, 4, STR_A, 6, MB_PLAIN, true, 6);
 c12_scan!(c12_string_f3, parse_string_off, [], 0, [1, 1, 1], 3, 3, STR_A, 6, MB_PLAIN, false, 5);
